@@ -25,17 +25,18 @@ pub uninterp spec fn inferred(e: ExprId, r: Expr) -> bool;
 #[verifier::external_body] pub struct Typer { _p: u64 }
 impl Typer {
     pub uninterp spec fn constraints(&self) -> Seq<Constraint>;
-    #[verifier::external_body] pub fn push_constraint(&mut self, c: Constraint) ensures final(self).constraints() == old(self).constraints().push(c) { unimplemented!() }
+    pub uninterp spec fn recorded(&self) -> Set<Constraint>;        // the same constraints as a set: everything ever pushed (nothing is removed while an expression is elaborated)
+    #[verifier::external_body] pub fn push_constraint(&mut self, c: Constraint) ensures final(self).constraints() == old(self).constraints().push(c), final(self).recorded() == old(self).recorded().insert(c) { unimplemented!() }
     #[verifier::external_body]
     pub fn infer_expr(&mut self, genv: &PackageTypeEnv, local_env: &mut LocalTypeEnv, diagnostics: &mut Diagnostics, e: ExprId) -> (r: Expr)
-        ensures inferred(e, r),
+        ensures inferred(e, r), old(self).recorded().subset_of(final(self).recorded()),
     { unimplemented!() }
-    #[verifier::external_body] pub fn fresh_ty_var(&mut self) -> (r: Ty) ensures final(self).constraints() == old(self).constraints() { unimplemented!() }
-    #[verifier::external_body] pub fn error_expr(&mut self, astptr: Option<MySyntaxNodePtr>) -> (r: Expr) ensures final(self).constraints() == old(self).constraints(), !(r is ECall) { unimplemented!() }
+    #[verifier::external_body] pub fn fresh_ty_var(&mut self) -> (r: Ty) ensures final(self).constraints() == old(self).constraints(), final(self).recorded() == old(self).recorded() { unimplemented!() }
+    #[verifier::external_body] pub fn error_expr(&mut self, astptr: Option<MySyntaxNodePtr>) -> (r: Expr) ensures final(self).constraints() == old(self).constraints(), final(self).recorded() == old(self).recorded(), !(r is ECall) { unimplemented!() }
     #[verifier::external_body] pub fn local_ident_name(&self, name: LocalId) -> (r: String) { unimplemented!() }                 // self.hir_table.local_ident_name
-    #[verifier::external_body] pub fn record_expr_ty(&mut self, e: ExprId, ty: Ty) ensures final(self).constraints() == old(self).constraints() { unimplemented!() }
-    #[verifier::external_body] pub fn record_name_ref_elab(&mut self, e: ExprId, elab: NameRefElab) ensures final(self).constraints() == old(self).constraints() { unimplemented!() }
-    #[verifier::external_body] pub fn record_call_elab(&mut self, e: ExprId, elab: CallElab) ensures final(self).constraints() == old(self).constraints() { unimplemented!() }
+    #[verifier::external_body] pub fn record_expr_ty(&mut self, e: ExprId, ty: Ty) ensures final(self).constraints() == old(self).constraints(), final(self).recorded() == old(self).recorded() { unimplemented!() }
+    #[verifier::external_body] pub fn record_name_ref_elab(&mut self, e: ExprId, elab: NameRefElab) ensures final(self).constraints() == old(self).constraints(), final(self).recorded() == old(self).recorded() { unimplemented!() }
+    #[verifier::external_body] pub fn record_call_elab(&mut self, e: ExprId, elab: CallElab) ensures final(self).constraints() == old(self).constraints(), final(self).recorded() == old(self).recorded() { unimplemented!() }
 }
 pub open spec fn expr_ty(e: Expr) -> Ty {
     match e {
@@ -47,25 +48,23 @@ pub open spec fn expr_ty(e: Expr) -> Ty {
         Expr::EInherentMethod { ty, .. } => ty, Expr::EToDyn { ty, .. } => ty,
     }
 }
-// `f(a1 .. an)` with f a local: every argument is elaborated once, in order; the LAST constraint recorded equates the callee's own type with
+// `f(a1 .. an)` with f a local: every argument is elaborated once, in order; a constraint is recorded that equates the callee's own type with
 // `(types of the elaborated arguments) -> t`, t being the type the call expression is given
-pub open spec fn local_call_ok(args: Seq<ExprId>, r: Expr, c1: Seq<Constraint>) -> bool {
+pub open spec fn call_site_ty(rr: Ty, a: Seq<Expr>, ty: Ty) -> bool {
+    rr matches Ty::TFunc { params, ret_ty } && *ret_ty == ty && params@.len() == a.len() && forall|i: int| 0 <= i < a.len() ==> #[trigger] params@[i] == expr_ty(a[i])
+}
+pub open spec fn local_call_ok(args: Seq<ExprId>, r: Expr, rec: Set<Constraint>) -> bool {
     r matches Expr::ECall { func, args: a, ty } ==> {
         &&& a@.len() == args.len()
         &&& forall|i: int| 0 <= i < args.len() ==> inferred(#[trigger] args[i], a@[i])
-        &&& c1.len() > 0
-        &&& (c1.last() matches Constraint::TypeEqual(l, rr)
-              && l == expr_ty(*func)
-              && (rr matches Ty::TFunc { params, ret_ty } && *ret_ty == ty && params@.len() == a@.len()
-                  && forall|i: int| 0 <= i < a@.len() ==> #[trigger] params@[i] == expr_ty(a@[i])))
+        &&& exists|rr: Ty| #[trigger] rec.contains(Constraint::TypeEqual(expr_ty(*func), rr)) && call_site_ty(rr, a@, ty)
     }
 }
 
 // a call by name, from the construction of the call-site function type on
-pub open spec fn named_tail_ok(r: Expr, inst_ty: Ty, arg_types: Seq<Ty>, args_tast: Seq<Expr>, ret_ty: Ty, c1: Seq<Constraint>) -> bool {
+pub open spec fn named_tail_ok(r: Expr, inst_ty: Ty, arg_types: Seq<Ty>, args_tast: Seq<Expr>, ret_ty: Ty, rec: Set<Constraint>) -> bool {
     &&& r matches Expr::ECall { func, args: a, ty } && a@ == args_tast && ty == ret_ty && expr_ty(*func) == inst_ty
-    &&& c1.len() > 0
-    &&& (c1.last() matches Constraint::TypeEqual(l, rr) && l == inst_ty && (rr matches Ty::TFunc { params, ret_ty: rt } && params@ == arg_types && *rt == ret_ty))
+    &&& exists|rr: Ty| #[trigger] rec.contains(Constraint::TypeEqual(inst_ty, rr)) && (rr matches Ty::TFunc { params, ret_ty: rt } && params@ == arg_types && *rt == ret_ty)
 }
 
 // ---- the arguments of a call by name (fragment call_named_args): checked against the callee's parameter types ----
@@ -78,7 +77,7 @@ pub fn lookup_function_type_by_hint(genv: &PackageTypeEnv, hint: &str) -> (r: Op
 impl Typer {
     #[verifier::external_body]
     pub fn check_expr(&mut self, genv: &PackageTypeEnv, local_env: &mut LocalTypeEnv, diagnostics: &mut Diagnostics, e: ExprId, expected: &Ty) -> (r: Expr)
-        ensures checked_as(e, *expected, r),
+        ensures checked_as(e, *expected, r), old(self).recorded().subset_of(final(self).recorded()),
     { unimplemented!() }
     #[verifier::external_body] pub fn inst_ty(&mut self, ty: &Ty) -> (r: Ty) ensures is_inst(*ty, r) { unimplemented!() }
 }
@@ -99,3 +98,8 @@ pub open spec fn named_args_ok(genv: PackageTypeEnv, hint: Seq<char>, args: Seq<
         }
     }
 }
+
+// ---- U-INFERCTRL: the typing rules of if / while / go / tuple / field access as equations recorded ----
+#[verifier::external_body] pub struct HirIdent { _p: u64 }
+impl HirIdent { pub uninterp spec fn text(&self) -> Seq<char>; #[verifier::external_body] pub fn to_ident_name(&self) -> (r: String) ensures r@ == self.text() { unimplemented!() } }
+#[verifier::external_body] pub fn no_params() -> (r: Vec<Ty>) ensures r@.len() == 0 { unimplemented!() }        // vec![]
